@@ -98,7 +98,11 @@ pub fn run(_tier: &str, rep: &mut Report) {
                 for &pos in &positions {
                     for n in n_values(bytes.len()) {
                         let mut lex: Lexer<$tok> = Lexer::new(&owned);
-                        lex.bump(pos);
+                        // moving to the start position is itself a legal bump (a boundary within the source)
+                        if catch_unwind(AssertUnwindSafe(|| lex.bump(pos))).is_err() {
+                            check(rep, $kind, bytes, 0, pos, true, false, 0, 0, |_| true, || true);
+                            continue;
+                        }
                         let want_ok = pos.checked_add(n).map_or(false, |e| e <= bytes.len() && (!$is_str || src.is_char_boundary(e)));
                         let r = catch_unwind(AssertUnwindSafe(|| lex.bump(n)));
                         let sp = lex.span();
